@@ -24,7 +24,9 @@ MEFF = ['log', 'logsym', 'cosh', 'periodic', 'sinh', 'arccosh']
 
 
 def build(case):
-    content = [None if v is None else cell(v) for v in case['vals']]
+    # overall normalisation of the correlator (exact power of two): effective masses do not depend on it, derivatives scale with it
+    sc = 2.0 ** case.get('scale2', 0)
+    content = [None if v is None else (cell(v) if sc == 1.0 else cell(v) * sc) for v in case['vals']]
     return pe.Corr(content)
 
 
@@ -300,6 +302,8 @@ def gen_case(ctx, pattern=None, T=None):
             case['explicit'] = rng.random() < 0.7
     case['vals'] = gen_vals(rng, T, shape, pattern)
     case['shape'] = shape
+    if q in ('meff', 'deriv', 'second'):
+        case['scale2'] = rng.choice([0, 0, 0, 0, -60, -85, 55])
     return case
 
 
